@@ -690,3 +690,68 @@ UNITS += [
          assumptions=["count_num_valid / assign_field by their contracts (c17_count_num_valid, c17_assign_field)"],
          note="copy_steps<host>: after every call, also one with zero delivered steps, each selected output attribute has exactly one entry per delivered step and each unselected one is empty; all 16 attributes are (re)assigned; both CELER_ENSUREs hold"),
 ]
+
+
+# ---------------------------------------------------------------------------
+# StepGatherAction<P>::step (host): gather kernel, then every registered callback exactly once (post step only)
+# ---------------------------------------------------------------------------
+SGA = "src/celeritas/user/detail/StepGatherAction.cc"
+SGA_MODEL = """
+#define NCB 8
+enum { SP_pre = 0, SP_post = 1 };
+typedef struct { size_type ncallbacks; } StepGatherAction;
+unsigned g_launched;            /* ghost: gather kernel launches */
+unsigned g_calls[NCB];          /* ghost: process_steps calls per registered callback */
+unsigned g_calls_before_gather; /* ghost: callbacks invoked before the gather kernel ran */
+size_type g_w;                  /* ghost witness callback */
+static void LAUNCH_gather(StepGatherAction const* self) { g_launched += 1; }
+static void CB_process_steps(StepGatherAction const* self, size_type i) { __CPROVER_assert(i < self->ncallbacks, "callback index in range"); if (!g_launched) g_calls_before_gather += 1; g_calls[i] += 1; }
+"""
+SGA_RULES = [
+    Rule(r"auto const& step_params = params_->ref<MemSpace::native>\(\);", "", 1, note="params reference"),
+    Rule(r"auto& step_state = params_->state_ref<MemSpace::native>\(state\.aux\(\)\);", "", 1, note="state reference"),
+    Rule(r"auto execute = TrackExecutor\{.*?\};", "", 1, flags=16, note="executor object (the per-slot kernel is under contract in c17_gather_pre / c17_gather_post)"),
+    Rule(r"launch_action\(\*this, params, state, execute\);", "LAUNCH_gather(self);", "*", note="kernel launch -> ghost counter"),
+    Rule(r"\bP (==|!=) StepPoint::(\w+)", r"P_ \1 SP_\2", "*", note="template parameter (bound per unit)"),
+    Rule(r"StepState<MemSpace::native> cb_state\{step_state, state\.stream_id\(\)\};", "", "*", note="callback argument"),
+    Rule(r"for \(auto const& sp_callback : callbacks_\)", "for (size_type cb_ = 0; cb_ < self->ncallbacks; ++cb_)", "*", note="range-for over the registered callbacks -> index loop"),
+    Rule(r"sp_callback->process_steps\(cb_state\);", "CB_process_steps(self, cb_);", "*", note="virtual call -> ghost counter per callback"),
+]
+
+
+def build_gather_action(P):
+    def build(ctx):
+        import re
+        pc = ctx.func(SGA, r"^void StepGatherAction<P>::step\(CoreParams const& params,\s*CoreStateHost& state\) const", SGA_RULES, name="StepGatherAction<P>::step (host)")
+        body = pc.body
+        nloops = len(re.findall(r"\bfor\b", body))
+        rep = []
+        body = LoopContracts(["    __CPROVER_assigns(cb_, g_calls_before_gather, __CPROVER_object_whole(g_calls))\n"
+                              "    __CPROVER_loop_invariant(cb_ <= self->ncallbacks && g_calls[g_w] == (g_w < cb_ ? 1 : 0) && g_calls_before_gather == 0)\n"
+                              "    __CPROVER_decreases(self->ncallbacks - cb_)\n"] * nloops).apply(body, rep, "StepGatherAction<P>::step") if nloops else body
+        ctx.report.extend(rep)
+        return (HDR + SGA_MODEL + "#define P_ %d\n" % P + """
+void SGA_step(StepGatherAction const* self)
+__CPROVER_requires(self != 0 && self->ncallbacks <= NCB && g_w < NCB && g_launched == 0 && g_calls[g_w] == 0 && g_calls_before_gather == 0)
+__CPROVER_assigns(g_launched, g_calls_before_gather, __CPROVER_object_whole(g_calls))
+/* the gather kernel runs exactly once; at the post-step point every registered callback then receives the steps exactly once (and none before the gather); at the pre-step point no callback runs */
+__CPROVER_ensures(g_launched == 1 && g_calls_before_gather == 0)
+__CPROVER_ensures(g_w < self->ncallbacks ==> g_calls[g_w] == (P_ == SP_post ? 1 : 0))
+{""" + body + """}
+void h_sga(void)
+{
+    StepGatherAction a;
+    SGA_step(&a);
+    VERIF_CANARY();
+}
+""")
+    return build
+
+
+UNITS += [
+    Unit("c17_gather_action_%s" % nm, build_gather_action(P), "h_sga", enforce="SGA_step", loop_contracts=True, timeout=300, unwind=10, backend=["sat", "cvc5"],
+         must_have=[r"SGA_step.postcondition"], checks=CHECKS,
+         assumptions=["<= 8 registered callbacks in the harness (loop closed by a loop contract)", "the kernel launch itself (launch_action / TrackExecutor) is not under contract"],
+         note="StepGatherAction<%s>::step (host): one gather launch; %s" % (nm, "then every registered callback is invoked exactly once, after the gather" if P else "no callback is invoked at the pre-step point"))
+    for nm, P in (("pre", 0), ("post", 1))
+]
